@@ -18,6 +18,7 @@ func init() {
 			"R17 an index that is compared with a length is compared with the length of the collection it indexes. " +
 			"R18 no store into a Context's parameter map is reachable with the map nil; R5 also: CheckSyntax and Tree.Add succeed only behind the parser. " +
 			"R19 (= C10.R17) a name that is only the ignore flag is refused. " +
+			"R20 (= C02.R21) the split point of two segment texts, for all pairs of texts. " +
 			"Not decided: absence of runtime faults for arbitrary bytes in general (no bounds prover in reach; the compiler's prove pass leaves about 100 bounds checks unproven).",
 		Assumptions: commonAssumptions,
 		Run: func(c *Ctx) {
@@ -44,6 +45,7 @@ func init() {
 			ruleIndexBoundedByItsOwnLength(c, "R17")
 			ruleZeroContextIsUsable(c, "R18")
 			ruleStrippedNameIsNotEmpty(c, "R19")
+			ruleSplitPointAutomaton(c, "R20")
 		},
 	})
 }
